@@ -38,27 +38,71 @@ def _known_types(fn):
     return bool(has_h and used)
 
 
-def _ignore_assembly(fn):
-    """(ignore_list = getattr(obj, ignore_attribute, []) + ignore,
-        fields.difference_update(ignore_list) on the result of _find_fields(obj),
-        the field test contains `attr_value not in ignore_list`)"""
-    il = None
+def _single_assignments(fn):
+    """name -> value for the locals assigned exactly once by a plain `name = value`."""
+    seen = {}
+    for n in ast.walk(fn):
+        if isinstance(n, ast.Assign):
+            for t in n.targets:
+                if isinstance(t, ast.Name):
+                    seen.setdefault(t.id, []).append(n.value)
+        elif isinstance(n, (ast.AugAssign, ast.AnnAssign)) and isinstance(n.target, ast.Name):
+            seen.setdefault(n.target.id, []).append(None)
+    return dict((k, v[0]) for k, v in seen.items() if len(v) == 1 and v[0] is not None)
+
+
+def _is_own_ignore(node, single):
+    """`getattr(obj, ignore_attribute, [])`, directly or through a local assigned once to it."""
+    if isinstance(node, ast.Name) and node.id in single:
+        node = single[node.id]
+    return isinstance(node, ast.Call) and _is_name(node.func, "getattr") and len(node.args) == 3 \
+        and _is_name(node.args[0], "obj") and _is_name(node.args[1], "ignore_attribute") \
+        and isinstance(node.args[2], ast.List) and not node.args[2].elts
+
+
+def _ignore_lists(fn):
+    """The assignments `<name> = getattr(obj, ignore_attribute, []) + ignore` (the first operand possibly through a
+    local assigned once): [(Assign node, name)]."""
+    single = _single_assignments(fn)
+    out = []
     for n in ast.walk(fn):
         if isinstance(n, ast.Assign) and len(n.targets) == 1 and isinstance(n.targets[0], ast.Name) \
                 and isinstance(n.value, ast.BinOp) and isinstance(n.value.op, ast.Add):
-            l, r = n.value.left, n.value.right
-            if isinstance(l, ast.Call) and _is_name(l.func, "getattr") and len(l.args) == 3 and _is_name(l.args[0], "obj") \
-                    and _is_name(l.args[1], "ignore_attribute") and isinstance(l.args[2], ast.List) and not l.args[2].elts \
-                    and _is_name(r, "ignore"):
-                il = n.targets[0].id
-    if il is None:
+            if _is_own_ignore(n.value.left, single) and _is_name(n.value.right, "ignore"):
+                out.append((n, n.targets[0].id))
+    return out
+
+
+def _method_branch(fn):
+    """The `if hasattr(obj, serialize_method):` statement of dump."""
+    for n in ast.walk(fn):
+        if isinstance(n, ast.If) and isinstance(n.test, ast.Call) and _is_name(n.test.func, "hasattr") \
+                and len(n.test.args) == 2 and _is_name(n.test.args[0], "obj") and _is_name(n.test.args[1], "serialize_method"):
+            return n
+    return None
+
+
+def _within(node, stmts):
+    return any(x is node for st in stmts for x in ast.walk(st))
+
+
+def _ignore_assembly(fn):
+    """(ignore_list = getattr(obj, ignore_attribute, []) + ignore,
+        fields.difference_update(ignore_list) on the result of _find_fields(obj) before a loop over the fields,
+        the field test contains `attr_value not in ignore_list`) — in the field-wise (`else:`) part of dump."""
+    branch = _method_branch(fn)
+    lists = [(n, name) for n, name in _ignore_lists(fn) if branch is None or not _within(n, branch.body)]
+    if not lists:
         return None
+    il = lists[-1][1]
     fields = None
     for n in ast.walk(fn):
-        if isinstance(n, ast.Assign) and len(n.targets) == 1 and isinstance(n.targets[0], ast.Name) \
-                and isinstance(n.value, ast.Call) and _is_name(n.value.func, "_find_fields") \
-                and len(n.value.args) == 1 and _is_name(n.value.args[0], "obj"):
-            fields = n.targets[0].id
+        if isinstance(n, ast.Assign) and len(n.targets) == 1 and isinstance(n.targets[0], ast.Name):
+            v = n.value
+            if isinstance(v, ast.Call) and _is_name(v.func, "set") and len(v.args) == 1:
+                v = v.args[0]
+            if isinstance(v, ast.Call) and _is_name(v.func, "_find_fields") and len(v.args) == 1 and _is_name(v.args[0], "obj"):
+                fields = n.targets[0].id
     diff = False
     loop_over_fields = False
     if fields is not None:
@@ -66,11 +110,56 @@ def _ignore_assembly(fn):
             if isinstance(n, ast.Call) and isinstance(n.func, ast.Attribute) and n.func.attr == "difference_update" \
                     and _is_name(n.func.value, fields) and len(n.args) == 1 and _is_name(n.args[0], il):
                 diff = True
-            if isinstance(n, ast.For) and _is_name(n.iter, fields):
-                loop_over_fields = True
+            if isinstance(n, ast.For):
+                it = n.iter
+                if isinstance(it, ast.Call) and isinstance(it.func, ast.Name) and it.func.id in ("sorted", "list", "tuple") \
+                        and len(it.args) == 1 and not it.keywords:
+                    it = it.args[0]
+                if _is_name(it, fields):
+                    loop_over_fields = True
     notin = any(isinstance(n, ast.Compare) and len(n.ops) == 1 and isinstance(n.ops[0], ast.NotIn)
-                and _is_name(n.comparators[0], il) for n in ast.walk(fn))
+                and _is_name(n.comparators[0], il) and (branch is None or not _within(n, branch.body)) for n in ast.walk(fn))
     return True, bool(diff and loop_over_fields), bool(notin)
+
+
+def _serial_ignore_filter(fn):
+    """In the `if hasattr(obj, serialize_method):` branch: `<il> = getattr(obj, ignore_attribute, []) + ignore` and the
+    attributes returned by the method reach `return_obj` only through a comprehension / generator over
+    `<attrs>.items()` whose condition is `<key> not in <il>` (no unfiltered `update(<attrs>)`)."""
+    branch = _method_branch(fn)
+    if branch is None:
+        return None
+    lists = [name for n, name in _ignore_lists(fn) if _within(n, branch.body)]
+    if not lists:
+        return False
+    il = lists[-1]
+    # the name bound to the second component of the method's result
+    attrs = None
+    for st in branch.body:
+        for n in ast.walk(st):
+            if isinstance(n, ast.Assign) and len(n.targets) == 1 and isinstance(n.targets[0], ast.Tuple) \
+                    and len(n.targets[0].elts) == 2 and all(isinstance(e, ast.Name) for e in n.targets[0].elts):
+                attrs = n.targets[0].elts[1].id
+    if attrs is None:
+        return None
+    filtered = False
+    unfiltered = False
+    for st in branch.body:
+        for n in ast.walk(st):
+            if isinstance(n, (ast.GeneratorExp, ast.DictComp, ast.ListComp)) and len(n.generators) == 1:
+                g = n.generators[0]
+                it = g.iter
+                over_attrs = isinstance(it, ast.Call) and isinstance(it.func, ast.Attribute) and it.func.attr == "items" \
+                    and _is_name(it.func.value, attrs)
+                key = g.target.elts[0].id if isinstance(g.target, ast.Tuple) and g.target.elts and isinstance(g.target.elts[0], ast.Name) else None
+                cond = any(isinstance(c, ast.Compare) and len(c.ops) == 1 and isinstance(c.ops[0], ast.NotIn)
+                           and _is_name(c.left, key) and _is_name(c.comparators[0], il) for c in g.ifs)
+                if over_attrs and key is not None and cond and len(g.ifs) == 1:
+                    filtered = True
+            if isinstance(n, ast.Call) and isinstance(n.func, ast.Attribute) and n.func.attr == "update" \
+                    and len(n.args) == 1 and _is_name(n.args[0], attrs):
+                unfiltered = True
+    return bool(filtered and not unfiltered)
 
 
 def _dump_defaults(fn):
@@ -116,22 +205,21 @@ def _handler_call_args(fn):
 
 
 def _names_consulted(fn):
-    """hasattr(obj, serialize_method) guards `getattr(obj, serialize_method)`; no other hasattr/getattr on obj takes a
-    string literal; returns the attribute-name arguments of every hasattr/getattr on `obj`, in source order."""
-    out = []
+    """The attribute-name arguments of every hasattr/getattr on `obj`, as a sorted set: parameters keep their name
+    (they are part of the API), any other variable is "<var>", a literal is shown as such."""
+    out = set()
     params = set(a.arg for a in fn.args.args)
     calls = [n for n in ast.walk(fn) if isinstance(n, ast.Call) and isinstance(n.func, ast.Name)
              and n.func.id in ("hasattr", "getattr") and len(n.args) >= 2 and _is_name(n.args[0], "obj")]
-    for n in sorted(calls, key=lambda c: (c.lineno, c.col_offset)):
+    for n in calls:
         a = n.args[1]
         if isinstance(a, ast.Name):
-            # parameters keep their name (they are part of the API); any other variable is "<var>"
-            out.append("%s:%s" % (n.func.id, a.id if a.id in params else "<var>"))
+            out.add("%s:%s" % (n.func.id, a.id if a.id in params else "<var>"))
         elif isinstance(a, ast.Constant):
-            out.append("%s:%r" % (n.func.id, a.value))
+            out.add("%s:%r" % (n.func.id, a.value))
         else:
-            out.append("%s:?" % n.func.id)
-    return out
+            out.add("%s:?" % n.func.id)
+    return sorted(out)
 
 
 def _gate(fn, target_attr):
@@ -190,6 +278,49 @@ def _loads_calls_load(src):
     return False
 
 
+CONFIG_POS = {"dump": 6, "dumps": 7, "load": 1, "loads": 1, "Fault": 4}
+
+
+def _config_call_sites(src):
+    """Every call of dump / dumps / load / loads / Fault(...) (by bare name or as jsonrpclib.<name>) in jsonrpc.py and
+    SimpleJSONRPCServer.py: (module, enclosing class or "", enclosing function, callee, the expression passed as
+    `config` — "" when none is passed), sorted, without duplicates.  A call site that drops its configuration falls
+    back to the library default, i.e. to use_jsonclass=True, whatever the proxy or the server was configured with."""
+    out = set()
+    for mod in ("jsonrpc", "SimpleJSONRPCServer"):
+        tree = src.module(mod)
+        if tree is None:
+            return None
+
+        def visit(node, cls, fn):
+            for ch in ast.iter_child_nodes(node):
+                if isinstance(ch, ast.ClassDef):
+                    visit(ch, ch.name, fn)
+                    continue
+                if isinstance(ch, ast.FunctionDef):
+                    visit(ch, cls, ch.name if not fn else fn)
+                    continue
+                if isinstance(ch, ast.Call):
+                    f = ch.func
+                    name = None
+                    if isinstance(f, ast.Name):
+                        name = f.id
+                    elif isinstance(f, ast.Attribute) and _is_name(f.value, "jsonrpclib"):
+                        name = f.attr
+                    if name in CONFIG_POS:
+                        expr = ""
+                        for k in ch.keywords:
+                            if k.arg == "config":
+                                expr = ast.unparse(k.value)
+                        if not expr and len(ch.args) > CONFIG_POS[name]:
+                            expr = ast.unparse(ch.args[CONFIG_POS[name]])
+                        out.add((mod, cls, fn, name, expr))
+                visit(ch, cls, fn)
+
+        visit(tree, "", "")
+    return sorted(out)
+
+
 def facts(src):
     dump = src.func("jsonclass", "dump")
     out = []
@@ -202,7 +333,7 @@ def facts(src):
     ia = _ignore_assembly(dump) if dump is not None else None
     out.append(Fact("ignoreAssembly", "Bool × Bool × Bool",
                     None if ia is None else "(%s, %s, %s)" % tuple(lean_bool(x) for x in ia), ["C20"],
-                    "jsonclass.dump: (ignore_list = getattr(obj, ignore_attribute, []) + ignore, "
+                    "jsonclass.dump, field-wise branch: (ignore_list = getattr(obj, ignore_attribute, []) + ignore, "
                     "fields.difference_update(ignore_list) before the loop over the fields, `attr_value not in ignore_list` in the field test)",
                     json_value=None if ia is None else list(ia)))
 
@@ -219,8 +350,22 @@ def facts(src):
 
     nc = _names_consulted(dump) if dump is not None else None
     out.append(Fact("attributeNamesConsulted", "List String", None if not nc else lean_list(lean_str(x) for x in nc), ["C20"],
-                    "jsonclass.dump: the attribute-name argument of every hasattr/getattr on obj, in source order",
+                    "jsonclass.dump: the attribute-name arguments of the hasattr/getattr calls on obj, as a sorted set",
                     json_value=nc))
+
+    sf = _serial_ignore_filter(dump) if dump is not None else None
+    out.append(Fact("serialIgnoreFilter", "Bool", None if sf is None else lean_bool(sf), ["C20"],
+                    "jsonclass.dump, `if hasattr(obj, serialize_method):` branch: ignore_list = getattr(obj, ignore_attribute, []) "
+                    "+ ignore and the attributes returned by the method are emitted only through a comprehension over "
+                    "attrs.items() filtered by `key not in ignore_list`", json_value=sf))
+
+    cs = _config_call_sites(src)
+    out.append(Fact("configCallSites", "List (String × String × String × String × String)",
+                    None if not cs else lean_list("(%s, %s, %s, %s, %s)" % tuple(lean_str(x) for x in site) for site in cs),
+                    ["C08", "C07"],
+                    "every call of dump/dumps/load/loads/Fault in jsonrpc.py and SimpleJSONRPCServer.py with the expression it "
+                    "passes as config (\"\" = none: the library default, use_jsonclass=True, would apply)",
+                    json_value=None if cs is None else [list(x) for x in cs]))
 
     gd = _gate(src.func("jsonrpc", "dump"), "dump")
     gl = _gate(src.func("jsonrpc", "load"), "load")
